@@ -137,6 +137,45 @@ def flag_boundary_cases(rng):
     return out
 
 
+def _bcd_byte(a):
+    return (a % 10) | (((a * 3 + 1) % 10) << 4)
+
+
+def pcsp_cases(rng):
+    """deterministic grid of the PC/SP special cases: every single-operand instruction (RRC SWPB RRA SXT PUSH CALL) with
+    PC and SP as operand register in every As mode, .B/.W, and every double-operand instruction with PC or SP as source
+    (every As) and/or as destination (Ad 0/1), .B/.W.  Two states per opcode word: a canonical one (PC 0x8000, SP 0x0400,
+    every cell a distinct BCD byte, so that nothing of it is `undefined` for alignment or DADD reasons) and a seeded
+    well-formed one."""
+    ops = []
+    for op in range(6):
+        for bw in (0, 1):
+            for As in range(4):
+                for r in (0, 1):
+                    ops.append(0x1000 | (op << 7) | (bw << 6) | (As << 4) | r)
+    for op in range(4, 16):
+        for bw in (0, 1):
+            for As in range(4):
+                for Ad in (0, 1):
+                    for (s, d) in ((0, 0), (0, 1), (1, 0), (1, 1), (0, 6), (1, 6), (5, 0), (5, 1)):
+                        ops.append((op << 12) | (s << 8) | (Ad << 7) | (bw << 6) | (As << 4) | d)
+    out = []
+    for w in ops:
+        pc, sp = 0x8000, 0x0400
+        regs = [pc, sp, 0, 0, 0x0210, 0x0220, 0x0230, 0x0240] + [0x0250 + 0x10 * i for i in range(8)]
+        cells = {}
+        for base, n in ((sp - 8, 32), (pc, 32), (0x0200, 0x70), (0, 16), (0x8400, 16), (0x0800, 16)):
+            for a in range(base, base + n):
+                cells[a] = _bcd_byte(a)
+        for i, word in enumerate((w, 2, 6)):
+            cells[pc + 2 * i] = word & 0xff
+            cells[pc + 2 * i + 1] = word >> 8
+        out.append((w, regs, cells, "-"))
+        regs2, cells2 = make_state(rng, w, tame=1.0)
+        out.append((w, regs2, cells2, "-"))
+    return out
+
+
 def line(regs, cells, bio="-", cmd="sim"):
     return "%s msp430 %s %s %s" % (cmd, bio, ",".join("%x" % r for r in regs),
                                   ",".join("%x:%02x" % (a, cells[a]) for a in sorted(cells)) or "-")
